@@ -6,19 +6,24 @@ restore, list-files, list-snapshots, a filter that matches more than one name) i
 the own family cannot leave the loader as "nothing" (`None` = `_load_snapshots` goes on without it): then an older version of every
 file is restored "successfully", or a named snapshot lists no file.
 
-`Gen.snapLoadNeverSkipsListedOwn = true` iff
- (a) no path through `_download_snapshot_threadsafe` (and the `self.<method>`s whose value it returns, e.g. `_decrypt_snapshot_body`)
-     returns `None`: no bare `return`, no `return None`, no returned name that is assigned `None` somewhere, no falling off the end;
- (b) in `_load_snapshots._download_snapshot` every `None`-return sits in a top-level `if` BEFORE the first statement that reads the
-     object (so it cannot depend on the content) whose test is the snapshot filter (mentions a value derived from the
-     `snapshot_regex` parameter) or the tag check (contains a `.mac(…)` call); everything returned afterwards is never `None` by (a);
- (c) the consumer loop of `_load_snapshots` drops a result only under `… is None`.
-Structural (AST) analysis, independent of names of locals, comments, logging and of how the guards are wrapped.
+`Repository._load_snapshots` is EXECUTED symbolically (tools/symflow.py): the function it hands to the executor for every listed
+path (whatever it is called), the methods and helpers that one calls (inlined a few levels deep, whatever they are called), with
+locals resolved, conditions normalised (nested `if`s, early exits, `==` / `!=` with swapped branches, De Morgan, conditional
+expressions) and the values of `try / except / else` joined.  `Gen.snapLoadNeverSkipsListedOwn = true` iff
+
+ (a) the LOADER (the function run per listed path; it is the one that reads objects from the backend) returns `None` — a literal, a
+     conditional expression with a `None` arm, the `None` a callee returned — only on paths whose condition contains the snapshot
+     FILTER MISS (`<pattern derived from an argument of _load_snapshots>.search(name)` is None / falsy) or the TAG MISMATCH (`mac(…) == tag` false /
+     `!=` true, also through `hmac.compare_digest`); every other path returns something else or raises;
+ (b) neither the loader nor any helper inlined into it that returns values can also fall off its end (an implicit `None`);
+ (c) the consumer (the `yield`s of `_load_snapshots`) drops a result only under `… is None`.
+
 `ReplicatModel/SymMulti.lean::loadSnapshotL` is parameterised by the flag; `Properties/C04.lean::listed_snapshot_is_verified_or_error`,
 `damaged_listed_snapshot_fails_every_selecting_command`, `ok_after_damage_is_the_undamaged_result` discharge it by `decide`.
 """
 import ast
 
+import symflow as sf
 
 def _own_nodes(fn):
     """nodes of `fn` without the bodies of nested functions / classes / lambdas"""
@@ -56,139 +61,166 @@ def _completes(stmts):
     return True
 
 
-class _NoneAnalysis:
-    def __init__(self, methods):
-        self.methods = methods
-        self.memo = {}
-        self.why = []
+def _none_paths(t, depth=0):
+    """the conditions (lists of guard items) under which the value is None"""
+    if t == sf.NONE:
+        return [[]]
+    if not isinstance(t, tuple) or not t or depth > 30:
+        return []
+    if t[0] == 'phi':
+        return ([sf.literals(t[1], True) + p for p in _none_paths(t[2], depth + 1)]
+                + [sf.literals(t[1], False) + p for p in _none_paths(t[3], depth + 1)])
+    if t[0] == 'join':
+        return [p for a in t[2] for p in _none_paths(a, depth + 1)]
+    if t[0] in ('or', 'and'):          # `x or None`, `cond and value`
+        return [[]] if any(_none_paths(x, depth + 1) for x in t[1]) else []
+    return []
 
-    def maybe_none_expr(self, e, fn, depth):
-        if _is_none(e):
-            return True
-        if isinstance(e, ast.IfExp):
-            return self.maybe_none_expr(e.body, fn, depth) or self.maybe_none_expr(e.orelse, fn, depth)
-        if isinstance(e, ast.BoolOp):
-            return any(self.maybe_none_expr(v, fn, depth) for v in e.values)
-        if isinstance(e, ast.NamedExpr):
-            return self.maybe_none_expr(e.value, fn, depth)
-        if isinstance(e, ast.Await):
-            return self.maybe_none_expr(e.value, fn, depth)
-        if isinstance(e, ast.Name):
-            vals = []
-            for n in _own_nodes(fn):
-                if isinstance(n, ast.Assign) and any(isinstance(t, ast.Name) and t.id == e.id for t in n.targets):
-                    vals.append(n.value)
-                elif isinstance(n, ast.AnnAssign) and isinstance(n.target, ast.Name) and n.target.id == e.id and n.value is not None:
-                    vals.append(n.value)
-                elif isinstance(n, ast.NamedExpr) and n.target.id == e.id:
-                    vals.append(n.value)
-            return any(self.maybe_none_expr(v, fn, depth) for v in vals)
-        if isinstance(e, ast.Call) and isinstance(e.func, ast.Attribute) and isinstance(e.func.value, ast.Name) and e.func.value.id == 'self':
-            m = self.methods.get(e.func.attr)
-            if m is not None and depth < 4:
-                return self.maybe_none_fn(m, depth + 1)
+
+def _is_or_item(it):
+    return isinstance(it[0], tuple) and it[0] and it[0][0] == 'or' and isinstance(it[0][1], frozenset)
+
+
+def _is_regex_probe(t):
+    """`<pattern derived from an argument of _load_snapshots>.search(…)` (or match / fullmatch / re.search(<derived>, …))"""
+    if t[0] != 'call' or not sf.contains(t, lambda x: x[0] == 'arg'):
         return False
-
-    def maybe_none_fn(self, fn, depth=0):
-        """may `fn` return None on some path that does not raise?"""
-        if fn.name in self.memo:
-            return self.memo[fn.name]
-        self.memo[fn.name] = False       # cycles: assume the best, the other members decide
-        res = False
-        if any(isinstance(n, (ast.Yield, ast.YieldFrom)) for n in _own_nodes(fn)):
-            res = False
-        else:
-            if _completes(fn.body):
-                res = True
-                self.why.append(f'{fn.name} can fall off its end')
-            for n in _own_nodes(fn):
-                if isinstance(n, ast.Return) and self.maybe_none_expr(n.value, fn, depth):
-                    res = True
-                    self.why.append(f'{fn.name}: `{ast.unparse(n)}` (line {n.lineno}) may return None')
-        self.memo[fn.name] = res
-        return res
+    f = t[1]
+    return (f[0] == 'attr' and f[2] in ('search', 'match', 'fullmatch')) or (f[0] == 'global' and f[1] in ('re.search', 're.match', 're.fullmatch'))
 
 
-def _reads_object(node):
-    for n in ast.walk(node):
-        if isinstance(n, ast.Call):
-            f = ast.unparse(n.func)
-            last = f.rsplit('.', 1)[-1]
-            if 'download' in last or last in ('_get_cached', 'read_bytes', 'open'):
-                return True
+def _is_filter(it):
+    """the snapshot filter MISSED: the probe of the name with the pattern derived from an argument of `_load_snapshots` is None / falsy"""
+    if _is_or_item(it):
+        return False
+    atom, pol = it
+    if pol and atom[0] == 'isnone':
+        return _is_regex_probe(atom[1])
+    return (not pol) and _is_regex_probe(atom)
+
+
+def _has_mac(t):
+    return sf.contains(t, lambda x: x[0] == 'call' and x[1][0] == 'attr' and x[1][2] == 'mac')
+
+
+def _is_tag_mismatch(it):
+    """`mac(…) == <tag>` is false"""
+    if _is_or_item(it):
+        return False
+    atom, pol = it
+    if pol:
+        return False
+    if atom[0] == 'eq':
+        return _has_mac(atom[1]) != _has_mac(atom[2])
+    if atom[0] == 'call' and atom[1][0] == 'global' and atom[1][1].endswith('compare_digest') and len(atom[2]) == 2:
+        return _has_mac(atom[2][0]) != _has_mac(atom[2][1])
     return False
 
 
-def _derived_from(fn, seeds):
-    """names of `fn` (own body) whose value mentions one of `seeds` (transitively)"""
-    names = set(seeds)
-    changed = True
-    while changed:
-        changed = False
-        for n in _own_nodes(fn):
-            if isinstance(n, ast.Assign):
-                used = {x.id for x in ast.walk(n.value) if isinstance(x, ast.Name)}
-                if used & names:
-                    for t in n.targets:
-                        for x in ast.walk(t):
-                            if isinstance(x, ast.Name) and x.id not in names:
-                                names.add(x.id)
-                                changed = True
-    return names
+def _cond_justifies(c, pol):
+    """does the condition `c` (taken with polarity `pol`) imply: the name misses the filter, or the tag is not ours?"""
+    if not isinstance(c, tuple) or not c:
+        return False
+    if c[0] == 'not':
+        return _cond_justifies(c[1], not pol)
+    if c[0] in ('and', 'or') and isinstance(c[1], tuple):
+        conj = (c[0] == 'and') == pol          # a conjunction implies what one member implies; a disjunction what all imply
+        return (any if conj else all)(_cond_justifies(x, pol) for x in c[1])
+    return _is_filter((c, pol)) or _is_tag_mismatch((c, pol))
+
+
+def _justifies(it):
+    """the guard item implies: the name does not match the filter, or the tag is not ours"""
+    if _is_or_item(it):
+        return all(_justifies(x) for x in it[0][1])
+    return _cond_justifies(it[0], it[1])
+
+
+def _reads_backend(e):
+    """a call of the backend's download API (not one of the repository's own helpers, those are inlined)"""
+    if e.kind != 'call' or e.callee[0] != 'attr' or not e.callee[2].startswith('download'):
+        return False
+    return True
+
+
+def _returns_value(fn):
+    return any(isinstance(n, ast.Return) and not _is_none(n.value) for n in _own_nodes(fn))
+
+
+def _is_generator(fn):
+    return any(isinstance(n, (ast.Yield, ast.YieldFrom)) for n in _own_nodes(fn))
+
+
+def analyse(source, cls='Repository', fn='_load_snapshots'):
+    """-> list of problems (empty = the flag is true)"""
+    mod = sf.Module(source)
+    cnode = mod.classes.get(cls)
+    if cnode is None:
+        return [f'class {cls} not found']
+    defs = {}
+    for n in ast.walk(cnode):
+        if isinstance(n, (ast.FunctionDef, ast.AsyncFunctionDef)):
+            defs.setdefault(n.name, n)
+    for name, n in mod.funcs.items():
+        defs.setdefault(name, n)
+    interp = sf.Interp(mod, cls)
+    try:
+        evs, _ = interp.run(fn)
+    except (sf.TooBig, RecursionError):
+        evs = None
+    if evs is None:
+        return [f'{fn} not found / too large']
+    problems = []
+    # frames of functions handed to an executor / callback: ctx = (…, ('deferred', id), ('inline', call, name), …)
+    frames = {}
+    for e in evs:
+        for i, c in enumerate(e.ctx):
+            if c[0] == 'deferred':
+                if i + 1 < len(e.ctx) and e.ctx[i + 1][0] == 'inline' and len(e.ctx[i + 1]) >= 3:
+                    frames.setdefault(c[1], (i + 2, e.ctx[i + 1][2], []))[2].append(e)
+                break
+    loaders = {k: v for k, v in frames.items() if any(_reads_backend(e) for e in v[2])}
+    if not loaders:
+        return ['no function that reads listed objects is handed to an executor in ' + fn]
+    for did, (plen, name, fe) in sorted(loaders.items()):
+        entry = frozenset.intersection(*[e.guard for e in fe])
+        rets = [e for e in fe if e.kind == 'return' and not any(c[0] in ('inline', 'deferred') for c in e.ctx[plen:])]
+        if not rets:
+            problems.append(f'{name} returns nothing')
+        for e in rets:
+            for lits in _none_paths(e.value):
+                rel = set(e.guard - entry) | set(lits)
+                if not any(_justifies(it) for it in rel):
+                    problems.append(f'{name}: a listed object leaves the loader as None under {sf.show_guard(frozenset(rel))[:160] or "no condition"}, '
+                                    'which contains neither the snapshot filter nor the tag mismatch')
+        node = defs.get(name)
+        if node is None:
+            problems.append(f'{name}: definition not found')
+        elif _completes(node.body):
+            problems.append(f'{name} can fall off its end (returns None)')
+        for nm in sorted({c[2] for e in fe for c in e.ctx[plen:] if c[0] == 'inline' and len(c) >= 3}):
+            h = defs.get(nm)
+            if h is not None and not isinstance(h, ast.Lambda) and not _is_generator(h) and _returns_value(h) and _completes(h.body):
+                problems.append(f'{nm} returns a value on some paths and falls off its end (None) on others')
+    # the consumer
+    own = [e for e in evs if e.kind == 'yield' and not any(c[0] in ('inline', 'deferred') for c in e.ctx)]
+    if not own:
+        problems.append(f'{fn} yields nothing itself')
+    for e in own:
+        lids = [c[1] for c in e.ctx if c[0] == 'for']
+        loop = interp.loops.get(lids[-1]) if lids else None
+        if loop is None:
+            problems.append(f'{fn}: a result is yielded outside a loop over the loaded snapshots')
+            continue
+        for it in e.guard - loop.outer_guard:
+            if _is_or_item(it) or it[1] or it[0][0] != 'isnone':
+                problems.append(f'{fn} drops a loaded snapshot under a condition other than `is None`: ¬({sf.show_guard(frozenset([it]))[:120]})')
+    return list(dict.fromkeys(problems))
 
 
 def section(ctx):
-    rtree = ast.parse((ctx.REPO / 'replicat' / 'repository.py').read_text())
-    cls = ctx.find_func(rtree, 'Repository')
-    methods = {n.name: n for n in (cls.body if cls is not None else []) if isinstance(n, (ast.FunctionDef, ast.AsyncFunctionDef))}
-    ls = methods.get('_load_snapshots')
-    ds = methods.get('_download_snapshot_threadsafe')
-    inner = ctx.find_func(ls, '_download_snapshot') if ls is not None else None
-    problems = []
-    if ls is None or ds is None or inner is None:
-        problems.append('_load_snapshots / _download_snapshot / _download_snapshot_threadsafe not found')
-    else:
-        an = _NoneAnalysis(methods)
-        # (a)
-        if an.maybe_none_fn(ds):
-            problems += an.why
-        # (b)
-        params = {a.arg for a in ls.args.args + ls.args.kwonlyargs} - {'self'}
-        filt = _derived_from(ls, params)
-        reached = False
-        for st in inner.body:
-            if not reached and _reads_object(st):
-                reached = True
-            if reached:
-                for n in ast.walk(st):
-                    if isinstance(n, ast.Return) and an.maybe_none_expr(n.value, inner, 0):
-                        problems.append(f'_download_snapshot: `{ast.unparse(n)}` (line {n.lineno}) may yield None once the object is being read')
-                continue
-            rets = [n for n in ast.walk(st) if isinstance(n, ast.Return)]
-            if not rets:
-                continue
-            if not isinstance(st, ast.If):
-                problems.append(f'_download_snapshot: return outside an `if` before the object is read (line {st.lineno})')
-                continue
-            names = {x.id for x in ast.walk(st.test) if isinstance(x, ast.Name)}
-            is_filter = bool(names & filt)
-            is_tag = any(isinstance(c, ast.Call) and ast.unparse(c.func).endswith('.mac') for c in ast.walk(st.test))
-            if not (is_filter or is_tag):
-                problems.append(f'_download_snapshot: an object is skipped under `{ast.unparse(st.test)}` (line {st.lineno}), which is neither the '
-                                'snapshot filter nor the tag check')
-        if not reached:
-            problems.append('_download_snapshot never reads the object')
-        elif _completes(inner.body):
-            problems.append('_download_snapshot can fall off its end (returns None) after reading the object')
-        an.why = []
-        # (c)
-        for n in _own_nodes(ls):
-            if isinstance(n, ast.If) and any(isinstance(x, (ast.Continue, ast.Break)) for b in (n.body, n.orelse) for x in b):
-                t = n.test
-                ok = isinstance(t, ast.Compare) and len(t.ops) == 1 and isinstance(t.ops[0], ast.Is) and _is_none(t.comparators[0])
-                if not ok:
-                    problems.append(f'_load_snapshots drops a loaded snapshot under `{ast.unparse(t)}` (line {n.lineno})')
+    problems = analyse((ctx.REPO / 'replicat' / 'repository.py').read_text())
     if problems:
-        ctx.notes['load.never_skips_listed_own'] = '; '.join(dict.fromkeys(problems))
+        ctx.notes['load.never_skips_listed_own'] = '; '.join(problems)
     ctx.emit('/-- a listed snapshot object of the own key family leaves the loader as a verified body or as an error — never as "nothing" -/')
     ctx.emit(f'def snapLoadNeverSkipsListedOwn : Bool := {"false" if problems else "true"}')
